@@ -86,7 +86,14 @@ func e3Programs() []e3prog {
 			var v int
 			var r [2]int
 			rd := func(i int) func() { return func() { mu.RLock(); r[i] = v; mu.RUnlock() } }
-			return []func(){rd(0), func() { mu.Lock(); v++; mu.Unlock(); mu.Lock(); v++; mu.Unlock() }, rd(1)}, func() string { return fmt.Sprint(r, v) }
+			return []func(){rd(0), func() {
+				mu.Lock()
+				v++
+				mu.Unlock()
+				mu.Lock()
+				v++
+				mu.Unlock()
+			}, rd(1)}, func() string { return fmt.Sprint(r, v) }
 		}},
 		{name: "pool-reuse-choice", mk: func() ([]func(), func() string) {
 			n := 0
